@@ -285,6 +285,27 @@ def s_feat(cx):
         sec, b, _ = cx.seed()
         L += ["reset", "enable mask=%d" % a, "enable mask=%d" % b2, "enable mask=%d" % c, load_op(sec, b, f),
               "create feat=%d rand=%s clock=0 ok=1" % (f & 7, hx(sec))]
+    # a seed HELD across a change of the enabled set: what the seed carries must not depend on what is enabled
+    # when it is later queried, encrypted, encoded, stored or used for key derivation
+    held = [(m1, f, m2) for m1 in range(1, 8) for f in range(1, 8) if f & ~m1 == 0
+            for m2 in range(8) if f & ~m2 != 0]
+    if cx.quick:
+        held = r.sample(held, 40)
+    for (m1, f, m2) in held:
+        sec, b, _ = cx.seed()
+        for enc in (0, 16):
+            how = r.randrange(2) if cx.quick else None
+            for ctor in (0, 1):
+                if how is not None and how != ctor:
+                    continue
+                L += ["reset", "enable mask=%d" % m1,
+                      ("create feat=%d rand=%s clock=%d ok=1" % (f, hx(sec), P.EPOCH + 7 * P.STEP)) if ctor == 0 and not enc
+                      else load_op(sec, b, f | enc),
+                      "enable mask=%d" % m2,
+                      "feature h=0 mask=7", "isenc h=0", "store h=0", "encode h=0 lang=0 coin=0",
+                      "keygen h=0 coin=0 size=32", "crypt h=0 pw=70c3a4", "feature h=0 mask=7", "isenc h=0",
+                      "store h=0", "encode h=0 lang=3 coin=1", "keygen h=0 coin=1 size=32",
+                      "crypt h=0 pw=70c3a4", "feature h=0 mask=7", "store h=0", "keygen h=0 coin=0 size=32"]
     # default state: nothing enabled; queries
     for f in range(32):
         sec, b, _ = cx.seed()
